@@ -148,6 +148,22 @@ func Keys[M ~map[K]V, K comparable, V any](site string, m M) []K {
 	return out
 }
 
+// KV is one entry of a ranged map.
+type KV[K comparable, V any] struct {
+	K K
+	V V
+}
+
+// Pairs returns the entries of m in the order decided by the hook (see Keys).
+func Pairs[M ~map[K]V, K comparable, V any](site string, m M) []KV[K, V] {
+	keys := Keys(site, m)
+	out := make([]KV[K, V], len(keys))
+	for i, k := range keys {
+		out[i] = KV[K, V]{k, m[k]}
+	}
+	return out
+}
+
 var (
 	registry   = map[any]int{}
 	registryMu sync.Mutex
